@@ -47,10 +47,35 @@ def generate(tier, seed, shard, nshards):
             yield {'kind': 'sim', **{**c, 'circuit': swept(rng, c['circuit'])}, 'sweep_of_previous': True}
 
 
-def check_matrix(ctx, prefix, cd, A, cv, lv):
+def state_weights(ssm, cv, lv):
+    """W in the model's OWN state order: which state is which capacitor voltage / inductor current is read from the model's
+    output rows (so a consistent re-ordering of the states is not an alarm); None if the rows are not unit vectors (C10's business)"""
+    n = len(cv) + len(lv)
+    w = np.zeros(n)
+    seen = set()
+    for sid, val in list(cv.items()) + list(lv.items()):
+        row = call(ssm.c_row_voltage if sid in cv else ssm.c_row_current, sid)
+        if raised(row):
+            return None
+        r = np.asarray(row, dtype=float).reshape(-1)
+        if r.size != n:
+            return None
+        k = int(np.argmax(np.abs(r)))
+        e = np.zeros(n); e[k] = 1
+        if np.max(np.abs(r - e)) > 1e-6 or k in seen:
+            return None
+        seen.add(k)
+        w[k] = val
+    return w
+
+
+def check_matrix(ctx, prefix, cd, A, cv, lv, ssm=None):
     oc = order_class(cd)
     okey = 'hostile-order' if any(oc) else 'conventional-order'
-    w = np.array(list(cv.values()) + list(lv.values()), dtype=float)
+    w = state_weights(ssm, cv, lv) if ssm is not None else np.array(list(cv.values()) + list(lv.values()), dtype=float)
+    if w is None:
+        ctx.count('set_aside_state_assignment_unreadable')
+        return
     if A.shape[0] != len(w):
         ctx.violation(f'{prefix}/state-dimension', f'A is {A.shape}, {len(w)} reactive elements', {})
         return
@@ -85,7 +110,7 @@ def judge(case, ctx, prefix='C11'):
     circ, net, ssm, cv, lv = built
     if case.get('sweep_of_previous'):
         ctx.count('value_sweeps')
-    check_matrix(ctx, prefix, cd, ssm.A, cv, lv)
+    check_matrix(ctx, prefix, cd, ssm.A, cv, lv, ssm)
     if case['kind'] == 'model':
         ctx.evaluated(circdesc.signature(cd, order_class(cd)), True)
         ctx.sample(case)
